@@ -407,8 +407,45 @@ def main_parts(cases):
     return out
 
 
+def main_tconv(cases):
+    """[h, w, c, oc, kh, kw, stride, same]: one TRANSPOSE_CONV; the explicit padding (top, left, bottom, right) that
+    fixup_conv2d_backprop + add_padding_fields give the operator, its resampling mode and its stride afterwards"""
+    from ethosu.vela import model_reader
+    from ethosu.vela.architecture_features import Accelerator, create_default_arch
+    from ethosu.vela.operation import Op
+    from ethosu.vela.tflite_graph_optimiser import fixup_conv2d_backprop, add_padding_fields
+    arch = create_default_arch(Accelerator.Ethos_U55_128)
+    out = []
+    tmp = tempfile.mkdtemp(prefix="rw_", dir=os.environ.get("VERIF_TMP"))
+    for i, case in enumerate(cases):
+        h, w, c, oc, kh, kw, st, same = case
+        rng = random.Random(str(case))
+        net = netgen.Net("tconv")
+        x = net.input([1, h, w, c], "int8", 0.05, 3)
+        y = netgen.transpose_conv(net, rng, x, oc, (kh, kw), (st, st), "SAME" if same else "VALID")
+        net.output(y)
+        path = os.path.join(tmp, "t%d.tflite" % i)
+        open(path, "wb").write(net.build())
+        nng, _ = model_reader.read_model(path, model_reader.ModelReaderOptions())
+        os.remove(path)
+        op = [o for o in nng.subgraphs[0].get_all_ops() if o.type == Op.Conv2DBackpropInput][0]
+        op.run_on_npu = True
+        op.set_ifm_ofm_shapes()
+        op = fixup_conv2d_backprop(op, arch, nng)
+        op.set_ifm_ofm_shapes()
+        op = add_padding_fields(op, arch, nng)
+        pad = [int(v) for v in op.attrs["explicit_padding"]]
+        out.append({"pad": pad, "resampling": str(op.ifm_resampling_mode), "stride": [int(op.attrs["stride_h"]), int(op.attrs["stride_w"])],
+                    "ifm": [int(v) for v in op.ifm_shapes[0].as_list()], "ofm": [int(v) for v in op.ofm_shapes[0].as_list()]})
+    os.rmdir(tmp)
+    return out
+
+
 def main():
     cases = json.load(open(sys.argv[1]))
+    if len(sys.argv) > 3 and sys.argv[3] == "tconv":
+        json.dump(main_tconv(cases), open(sys.argv[2], "w"))
+        return
     if len(sys.argv) > 3 and sys.argv[3] == "parts":
         json.dump(main_parts(cases), open(sys.argv[2], "w"))
         return
